@@ -2,7 +2,7 @@
 # Confirm a seeded change independently: tools/confirm_seed.sh <dir with patch.diff and demo.c> [thread]
 # In a scratch worktree of /repo HEAD: demo passes on the clean tree; patch applies; library compiles;
 # the repository's suite passes (guard off); demo fails with the patch. Prints CONFIRMED or why not.
-D=$1; SAN=${2:-address,undefined}
+D=$(readlink -f "$1"); SAN=${2:-address,undefined}
 W=$(mktemp -d /tmp/vf-confirm.XXXXXX) || exit 2
 trap 'git -C /repo worktree remove --force "$W/tree" >/dev/null 2>&1; rm -rf "$W"' EXIT
 git -C /repo worktree add -q --detach "$W/tree" HEAD || exit 2
